@@ -25,7 +25,7 @@ type (
 
 // Hook decides whether the effect op on path fails (it may also block the caller for a while:
 // that is how the harness parks an ingest inside Store.put). op is one of
-// "link", "symlink", "ods-create", "q4-create", "ods-write", "q4-write".
+// "link", "symlink", "ods-create", "q4-create", "ods-write", "q4-write", "remove".
 type Hook func(op, path string) error
 
 var hook atomic.Pointer[Hook]
@@ -61,6 +61,14 @@ func Symlink(oldname, newname string) error {
 		return &os.LinkError{Op: "symlink", Old: oldname, New: newname, Err: err}
 	}
 	return os.Symlink(oldname, newname)
+}
+
+// Remove is os.Remove behind the hook (op "remove").
+func Remove(name string) error {
+	if err := Check("remove", name); err != nil {
+		return &os.PathError{Op: "remove", Path: name, Err: err}
+	}
+	return os.Remove(name)
 }
 
 // OpenFile is os.OpenFile behind the hook.
